@@ -5,6 +5,9 @@ cd "$(dirname "$0")/.."
 rc=0
 for f in findings/*.json; do
   id=$(python3 -c "import json,sys; print(json.load(open('$f'))['property'])")
-  if ./mc check "$id" --replay "$f" --quiet >/dev/null 2>&1; then echo "ok   $f"; else echo "BACK $f"; rc=1; fi
+  case "$(basename "$f")" in
+    F*) if ./mc check "$id" --replay "$f" --quiet >/dev/null 2>&1; then echo "GONE $f (open finding no longer reproduces: update known_findings.json)"; rc=1; else echo "open $f"; fi ;;
+    *)  if ./mc check "$id" --replay "$f" --quiet >/dev/null 2>&1; then echo "ok   $f"; else echo "BACK $f"; rc=1; fi ;;
+  esac
 done
 exit $rc
